@@ -2,6 +2,7 @@
 use crate::runner::Check;
 pub mod c01;
 pub mod c02;
+pub mod c02b;
 pub mod e2e;
 pub mod c03;
 pub mod c04;
